@@ -49,6 +49,12 @@ def ledger(rnd, n, world="W1", sid="L"):
                     owners = rnd.sample(users, rnd.randint(1, 4))
                     weights = [rnd.choice([1, 2, 3, 500, 1023, 1024]) if rnd.random() < 0.2 else rnd.randint(1, 3) for _ in owners]
                     th = rnd.randint(1, sum(w for w in weights) + 1)
+                    q3 = rnd.random()
+                    if q3 < 0.12 and len(weights) > 1:
+                        weights = weights[:-1]                     # more owners than weights
+                        th = min(th, max(1, sum(weights)))
+                    elif q3 < 0.2:
+                        weights = weights + [1]                    # more weights than owners
                     t.update(type="CreateMultisig", **{"from": a}, args={"owners": owners, "weights": weights, "threshold": th})
                     ms = {"name": "ms:" + t["id"], "owners": owners}
                 elif r < 0.60 and ms is not None:
